@@ -200,7 +200,15 @@ func (c *ctx) compareOps(ver string, doc, srv []Op, strictV2 bool) {
 			}
 		}
 		if len(o.Params) != len(gm) {
-			c.fail(ver+"-param-duplicate", where+": the document lists a parameter twice")
+			cnt := map[string]int{}
+			for _, p := range o.Params {
+				cnt[p.In+":"+p.Name]++
+			}
+			sig := ver + "-param-duplicate"
+			if len(o.Params)-len(gm) == cnt["header:Authorization"]-1 {
+				sig += ":authorization-header"
+			}
+			c.fail(sig, where+": the document lists a parameter twice")
 		}
 		if o.HasBody != s.HasBody {
 			c.fail(ver+"-body-mismatch", fmt.Sprintf("%s: server decodes a body=%v, document has a request body=%v", where, s.HasBody, o.HasBody))
@@ -273,6 +281,11 @@ func treeDiffs(a, b any, at string, out *[][2]string) {
 		}
 		if x != b {
 			if fmt.Sprint(a) == fmt.Sprint(b) {
+				return
+			}
+			if ys, ok := b.(string); ok && x == "\n"+ys {
+				// yaml.v3 writes a literal block without the leading empty line
+				*out = append(*out, [2]string{at, "leading-newline-lost-in-yaml"})
 				return
 			}
 			*out = append(*out, [2]string{at, "other"})
